@@ -624,8 +624,24 @@ class Engine:
                 qr = self.P.g.setdefault('udivs', {}).get(key)
                 if qr is None:
                     k = self.P.g['udivcnt'] = self.P.g.get('udivcnt', 0) + 1
-                    q = z3.BitVec('udq%d' % k, w); r = z3.BitVec('udr%d' % k, w)
-                    self.P.solver.add(z3.ULE(q, mask // y), z3.ULT(r, y), X == q * y + r, z3.ULE(r, X))
+                    # narrow the multiplier when the dividend is provably small on this path (bit-blasted multipliers
+                    # of full width with a constant do not finish; measured)
+                    nw = w
+                    for cand in (16, 24, 32, 40, 48):
+                        if cand >= w: break
+                        ok, _ = self.check(z3.UGE(X, z3.BitVecVal(1 << cand, w)))
+                        if not ok: nw = cand; break
+                    if nw < w:
+                        Xn = z3.simplify(z3.Extract(nw - 1, 0, X))
+                        qn = z3.BitVec('udq%d' % k, nw); rn = z3.BitVec('udr%d' % k, nw)
+                        cb = y.bit_length()
+                        # canonical widening product (shared, syntactically, with the oracle integers of the harness API)
+                        prod = z3.ZeroExt(cb, qn) * z3.BitVecVal(y, nw + cb)
+                        self.P.solver.add(z3.ULT(rn, y) if y < (1 << nw) else z3.BoolVal(True), z3.ZeroExt(cb, Xn) == prod + z3.ZeroExt(cb, rn))
+                        q = z3.ZeroExt(w - nw, qn); r = z3.ZeroExt(w - nw, rn)
+                    else:
+                        q = z3.BitVec('udq%d' % k, w); r = z3.BitVec('udr%d' % k, w)
+                        self.P.solver.add(z3.ULE(q, mask // y), z3.ULT(r, y), X == q * y + r, z3.ULE(r, X))
                     qr = self.P.g['udivs'][key] = (q, r, X)
                 return qr[0] if tok == '/' else qr[1]
             if self.branch(Y == 0): raise GoPanic('integer divide by zero')
